@@ -15,6 +15,9 @@ def sites : List Site := [
   ("data/coordinates.py", "get_rotatable_dihedrals", "set((tuple(v11) for v11 in self.rotatable_dihedrals))"),
   ("data/coordinates.py", "get_rotatable_dihedrals", "set((tuple(v11) for v11 in v8))"),
   ("data/coordinates.py", "remove_repeat_angles", "set([v1[1] for v1 in angles])"),
+  ("global_optimisation/perturbations.py", "perturb", "random.sample(…)"),
+  ("global_optimisation/perturbations.py", "perturb", "random.sample(…)"),
+  ("global_optimisation/perturbations.py", "perturb", "random.random(…)"),
   ("similarity/molecular_similarity.py", "get_permutable_groups", "set(coords1.atom_labels)"),
   ("similarity/molecular_similarity.py", "get_permutable_groups", "set((tuple(sorted(v13)) for v13 in v10))")
 ]
@@ -33,6 +36,8 @@ def justified : List Site := [
   ("data/coordinates.py", "get_rotatable_dihedrals", "set((tuple(v11) for v11 in self.rotatable_dihedrals))"),  -- tuples of ints (atom indices),
   ("data/coordinates.py", "get_rotatable_dihedrals", "set((tuple(v11) for v11 in v8))"),  -- tuples of ints (atom indices),
   ("data/coordinates.py", "remove_repeat_angles", "set([v1[1] for v1 in angles])"),  -- ints (atom indices),
+  ("global_optimisation/perturbations.py", "perturb", "random.sample(…)"),  -- Python's random module, seeded by the caller; basin-hopping steps never run inside a pool worker,
+  ("global_optimisation/perturbations.py", "perturb", "random.random(…)"),  -- Python's random module, seeded by the caller; basin-hopping steps never run inside a pool worker,
   ("similarity/molecular_similarity.py", "get_permutable_groups", "set(coords1.atom_labels)"),  -- strings: order irrelevant by C11_group_order_irrelevant,
   ("similarity/molecular_similarity.py", "get_permutable_groups", "set((tuple(sorted(v13)) for v13 in v10))")  -- tuples of strings: order irrelevant by C11_group_order_irrelevant
 ]
